@@ -6,6 +6,7 @@
 -/
 import AITB.Props.C18c
 namespace AITB.Cassandra
+variable {fl : Flags}
 
 theorem specHit_append (pre L : List Stmt) (D1 D2 D3 x y z : Nat) :
     specHit (pre ++ L) D1 D2 D3 x y z = (specHit L D1 D2 D3 x y z).or (specHit pre D1 D2 D3 x y z) := by
